@@ -10,9 +10,12 @@ TIER=${1:-quick}
 V=/verif; W=/tmp/cov; B=$(ls -d /root/.rustup/toolchains/nightly-x86_64-unknown-linux-gnu/lib/rustlib/*/bin | head -1)
 mkdir -p $W/raw $W/out; rm -f $W/raw/*.profraw
 export CARGO_NET_OFFLINE=true
+# instrumented build scripts and proc-macros write a profile when they run: keep those out of /repo and /verif
+export LLVM_PROFILE_FILE=$W/raw/build-%p-%m.profraw
 ( cd $V/harness && CARGO_TARGET_DIR=$W/target RUSTFLAGS="-C instrument-coverage --cfg phylotree_verif" cargo build --offline 2>&1 | tail -1 )
 ( cd /repo && CARGO_TARGET_DIR=$W/cli RUSTFLAGS="-C instrument-coverage" cargo build --offline --bin phylotree 2>&1 | tail -1 )
 PVH=$W/target/debug/pvh; CLI=$W/cli/debug/phylotree; DRV=$V/lean/PhyloModel/.lake/build/bin/driver
+rm -f $W/raw/build-*.profraw /repo/default_*.profraw $V/harness/default_*.profraw
 cd $V
 for i in $(seq -w 1 20); do
   P=C$i; mkdir -p $W/raw/$P
